@@ -306,8 +306,8 @@ func (c *cmafIngester) start(ctx context.Context) {
 	c.state = ingesterStateRunning
 
 	refRep := c.asset.refRep
-	lastNr := findLastSegNr(c.cfg, c.asset, nowMS, refRep)
-	nextSegNr := lastNr + 1
+	lastNr := findLastSegNr(c.cfg, c.asset, nowMS, refRep) // Counted from the start of the stream
+	nextSegNr := lastNr + 1 + c.cfg.getStartNr()
 	lastSegNrToSend := -1
 
 	if c.nrSegsToSend != nil {
